@@ -67,4 +67,4 @@ NOT_APPLICABLE = {}
 NOTES = ("See DESIGN.md. All checks: /venv/bin/python harness/check.py <id> --tier quick|thorough; exit 2 = machinery failure. "
          "TLC outputs that depend only on the specification and the seed are cached under .cache/ (pre-generated by build.sh); "
          "everything touching /repo is re-run on every invocation. harness/selftest.py validates the machinery against a catalogue "
-         "of source mutations (harness/mutants.py) on scratch copies; harness/seedsweep.py re-runs the 61 independently seeded changes of seeded/.")
+         "of source mutations (harness/mutants.py) on scratch copies; harness/seedsweep.py re-runs the 73 independently seeded changes of seeded/.")
